@@ -7,12 +7,12 @@ RULE = ('one generated chart + start state + event script is run under every con
         '{plain, instrumented, queued (instrumented T/F), active object (named/unnamed, instrumented T/F)} x {live_spy} x '
         '{live_trace} (50 configurations, plus 6 handler-style configurations: un-spied states carrying a foreign functools.wraps decorator (the user\'s own timing / logging wrapper) on every host; active objects run on their real threads, one event at a time, synchronised by a '
         'harness semaphore released at the end of next_rtc); the ground-truth log (offers, guard evaluations, entries, exits, '
-        'inits in order), the rest state after every step and any exception are compared with the plain un-spied run. '
+        'inits in order), the rest state after every step and any exception are compared with the plain un-spied run; in half of the cases the chart object is started a SECOND time at the end (after clear_trace() where the host keeps a trace) and that start is compared too. '
         'Every fifth case instead runs an active object with posters racing its thread under detsched, once with live output off and with each live flag combination on: the set of dispatched events and thread survival must be the same. '
         'distinct_nontrivial = distinct (configuration, number of transitions in the script, max depth) tuples')
 CASES = {'quick': 400, 'thorough': 30000}
 BUDGET = {'quick': 150, 'thorough': 300}
-REQUIRE = {'configs_compared': 2000, 'ao_configs_compared': 200, 'transitions': 500, 'concurrent_live_cases': 50, 'handler_style_configs_compared': 1000}
+REQUIRE = {'configs_compared': 2000, 'ao_configs_compared': 200, 'transitions': 500, 'concurrent_live_cases': 50, 'handler_style_configs_compared': 1000, 'cases_with_a_second_start': 100}
 ASSUME = ['decoration is all-or-none per chart', 'the plain un-spied run is the reference (tied to the model by C01-C03)']
 CONFIGS = hosts.all_configs()
 STYLE_CONFIGS = hosts.style_configs()
@@ -52,7 +52,10 @@ def run_case(ctx, n):
   spec = cg.gen_spec(rng, nmax=rng.choice([6, 10, 16]), name_style=rng.choice(cg.NAME_STYLES))
   start = rng.randrange(spec['n'])
   script = cg.gen_script(rng, spec, rng.randint(4, 16))
-  ref = hosts.run_config(spec, start, script, {'host': 'plain', 'spied': False})
+  restart = rng.randrange(spec['n']) if rng.random() < 0.5 else None     # the chart is started a second time at the end of the script
+  if restart is not None:
+    ctx.count('cases_with_a_second_start')
+  ref = hosts.run_config(spec, start, script, {'host': 'plain', 'spied': False, 'restart': restart})
   if ref.error is not None:
     ctx.count('reference_errors')
     return
@@ -68,7 +71,7 @@ def run_case(ctx, n):
       continue
     name = hosts.cfg_name(cfg)
     try:
-      res = hosts.run_config(spec, start, script, cfg)
+      res = hosts.run_config(spec, start, script, dict(cfg, restart=restart))
     except hosts.Inconclusive as ex:
       ctx.count('inconclusive_runs')
       continue
@@ -92,5 +95,9 @@ def run_case(ctx, n):
         ctx.violation('C18/step-differs/' + grp, 'configuration %s step %d (%s): log %r rest %s; reference %r rest %s' % (
           name, k, script[k], res.step_logs[k], res.rest[k + 1], ref.step_logs[k], ref.rest[k + 1]), dict(wit, failing_step=k))
         break
+    else:
+      if restart is not None and cfg['host'] != 'ao' and (res.restart_log != ref.restart_log or res.restart_rest != ref.restart_rest):
+        ctx.violation('C18/start-differs/' + grp, 'configuration %s, second start_at (%s) of the same chart object: log %r rest %s; reference %r rest %s' % (
+          name, spec['names'][restart], res.restart_log, res.restart_rest, ref.restart_log, ref.restart_rest), dict(wit, second_start=restart))
   if n < 2:
-    ctx.sample({'spec': spec, 'start': start, 'script': script, 'configs': [hosts.cfg_name(c) for c in cfgs][:8]})
+    ctx.sample({'spec': spec, 'start': start, 'script': script, 'second_start': restart, 'configs': [hosts.cfg_name(c) for c in cfgs][:8]})
